@@ -16,6 +16,19 @@ type iterator struct {
 	values    [][]byte
 }
 
+// globEscape quotes the glob metacharacters of a Redis MATCH pattern.
+func globEscape(s string) string {
+	var b strings.Builder
+	for i := 0; i < len(s); i++ {
+		switch s[i] {
+		case '*', '?', '[', ']', '\\':
+			b.WriteByte('\\')
+		}
+		b.WriteByte(s[i])
+	}
+	return b.String()
+}
+
 // NewIterator creates a new iterator for the given prefix. The start key is inclusive.
 func (db *redisDB) NewIterator(prefix []byte, start []byte) (database.Iterator, error) {
 	buf := make([]byte, 0, len(prefix)+len(start))
@@ -29,7 +42,8 @@ func (db *redisDB) NewIterator(prefix []byte, start []byte) (database.Iterator, 
 	var err error
 
 	prefixString := string(prefix)
-	pattern := prefixString + "*"
+	// MATCH takes a glob: quote the metacharacters of the prefix so that it only matches itself
+	pattern := globEscape(prefixString) + "*"
 
 	for {
 		var keys []string
